@@ -156,6 +156,10 @@ def suffixes(tag):
     out = [""]
     if tag.value_child is not None:
         out += VALUES
+        # a value that repeats a term of the node's own path (nothing but the trailing suffix is the value)
+        out.append("/" + tag.name)
+        if len(tag.terms()) > 1:
+            out.append("/" + tag.terms()[-2][:3])
     elif tag.has("extensionAllowed"):
         out.append(EXT)
     return out
